@@ -85,6 +85,8 @@ type FnCtx struct {
 	usedSums      map[string]bool
 	knownArrays   map[string]bool
 	boxed         map[string]Val // composite values boxed into interfaces, by interface term
+	assertsSeen   map[string]bool
+	siteOrd       map[ssa.Instruction]int
 }
 
 func newFnCtx(eng *Engine, fn *ssa.Function, fc *FuncContract, key string) *FnCtx {
@@ -93,7 +95,7 @@ func newFnCtx(eng *Engine, fn *ssa.Function, fc *FuncContract, key string) *FnCt
 		counters: map[string]int{}, strConsts: map[string]string{}, pathCap: 4096,
 		callOrd: map[ssa.Instruction]int{}, panicOrd: map[ssa.Instruction]string{}, usedSpecFns: map[string]bool{},
 		closures: map[string]*ssa.MakeClosure{}, inlined: map[string]bool{}, usedContracts: map[string]*FuncContract{},
-		usedLockInvs: map[string]bool{}, typeIDs: map[string]bool{}, sentinels: map[*ssa.Global]string{}, usedSums: map[string]bool{}}
+		usedLockInvs: map[string]bool{}, typeIDs: map[string]bool{}, sentinels: map[*ssa.Global]string{}, usedSums: map[string]bool{}, assertsSeen: map[string]bool{}}
 }
 
 func (c *FnCtx) note(s string) { c.notes[s] = true }
